@@ -248,20 +248,22 @@ class HeapMixin(object):
       return
     if ty.is_reflike and ty.k not in ('str', 'any') and v.t is not None:
       if ty.opt:
-        st.assume(z3.And(v.t >= 0, v.t <= st.alloc))
+        st.assume_wf(z3.And(v.t >= 0, v.t <= st.alloc))
       else:
-        st.assume(z3.And(v.t > 0, v.t <= st.alloc))
+        st.assume_wf(z3.And(v.t > 0, v.t <= st.alloc))
       if ty.k == 'ref':
         ci = self.reg.classes.get(ty.name)
         if ci is not None and ci.final:
           tag = self.dyn_class(st, v.t) == self.class_id(ty.name)
-          st.assume(z3.Implies(v.t != 0, tag) if ty.opt else tag)
+          st.assume_wf(z3.Implies(v.t != 0, tag) if ty.opt else tag)
 
   # ---------------------------------------------------------------- allocation
   def new_ref(self, st, cls=None):
     r = z3.Int(fresh_name('new'))
     st.assume(r == st.alloc + 1)     # dense allocation: no unconstrained references in between
     st.alloc = r
+    if cls is not None and cls in self.reg.classes and self.reg.classes[cls].final:
+      st.maybe_final = True
     # every new object gets a dynamic class tag (containers and closures: '$obj')
     a = self.arr(st, '$cls', [I, I])
     st.heap['$cls'] = z3.Store(a, r, z3.IntVal(self.class_id(cls if cls is not None else '$obj')))
@@ -278,7 +280,7 @@ class HeapMixin(object):
     a = self.arr(st, self.ckey(lst.ty, 'len'), [I, I])
     n = z3.Select(a, lst.t)
     if not self.spec_depth:
-      st.assume(n >= 0)
+      st.assume_wf(n >= 0)
     return n
 
   def set_list_len(self, st, lst, n):
@@ -319,7 +321,7 @@ class HeapMixin(object):
     lo = z3.Select(self.arr(st, self.ckey(dq.ty, 'lo'), [I, I]), dq.t)
     hi = z3.Select(self.arr(st, self.ckey(dq.ty, 'hi'), [I, I]), dq.t)
     if not self.spec_depth:
-      st.assume(lo <= hi)
+      st.assume_wf(lo <= hi)
     return lo, hi
 
   def dq_set_bounds(self, st, dq, lo=None, hi=None):
@@ -337,7 +339,7 @@ class HeapMixin(object):
   def set_card(self, st, s):
     c = z3.Select(self.arr(st, self.ckey(s.ty, 'card'), [I, I]), s.t)
     if not self.spec_depth:
-      st.assume(c >= 0)
+      st.assume_wf(c >= 0)
     return c
 
   def set_update(self, st, s, mem=None, card=None):
@@ -388,5 +390,5 @@ class HeapMixin(object):
   def dict_card(self, st, d):
     c = z3.Select(self.arr(st, self.ckey(d.ty, 'card'), [I, I]), d.t)
     if not self.spec_depth:
-      st.assume(c >= 0)
+      st.assume_wf(c >= 0)
     return c
